@@ -370,6 +370,12 @@ class DirectoryRecord:
             # the name the caller gave, not an internal one.
             raise pycdlibexception.PyCdlibInvalidInput('The name is too long to fit into a Rock Ridge directory record')
 
+        ce_record = self.rock_ridge.dr_entries.ce_record
+        if ce_record is not None and ce_record.len_cont_area > self.vd.logical_block_size():
+            # A continuation area has to fit into one logical block.  Say so
+            # before the link counts of the parent are touched below.
+            raise pycdlibexception.PyCdlibInvalidInput('The Rock Ridge name or symlink target is too long to fit into a continuation area')
+
         # For files, we are done
         if not self.isdir:
             return
